@@ -505,3 +505,27 @@ Theorem parents_prefix_refuted :
   (* F17: a v2 child of a pooled v1 transaction indexes the v2 slice with a v1 position *)
   unconfirmed_parents_prefix (parent_map_prefix [tA; tA] []) [] (ATx 11 true [AIn 100 RSpend unassigned true 0] [] 1 10 0 100 false) = PPanic.
 Proof. vm_compute. done. Qed.
+
+(** ** A child rebased alone: the creator of its ephemeral input need not be in the set *)
+Theorem rebase_child_alone U gen t from to out :
+  sane U → update_proofs U gen [t] from to = ROk out →
+  ∃ rev app, reorg_path U gen max_rebase from to = inr (rev, app) ∧
+    (a_id t ∈ confirmed_on U app → out = []) ∧
+    (a_id t ∉ confirmed_on U app → out = [map_ins (conv_confirmed (created_on U app)) t]).
+Proof.
+  intros Hs H. apply rebase_ok_spec in H as (rev&app&Hp&_&_&_&_&_&->&_); [|done].
+  exists rev, app. split; [done|]. unfold spec_apply. simpl. split; intros Hc.
+  - by rewrite bool_decide_true.
+  - by rewrite bool_decide_false.
+Qed.
+
+(** block 2 confirms the parent tB (id 2) and creates its output 104 as leaf 3 *)
+Definition exRU2 : universe :=
+  list_to_map [(0, Blk 0 false true false [] [] 0); (1, Blk 0 true true true [] [(0, 0); (4, 1); (8, 2)] 3);
+               (2, Blk 1 true true true [2] [(104, 3)] 5)].
+Example rebase_child_alone_ex :
+  update_proofs exRU2 (0, 1) [tC] (0, 1) (1, 2) =
+    ROk [ATx 3 true [AIn 104 RSpend 3 true 0] [108] 1 10 0 100 false] ∧
+  update_proofs exRU2 (0, 1) [tB; tC] (0, 1) (1, 2) =
+    ROk [ATx 3 true [AIn 104 RSpend 3 true 0] [108] 1 10 0 100 false].
+Proof. vm_compute. done. Qed.
